@@ -95,13 +95,13 @@ type Sim struct {
 	nVirt    int
 
 	// real-path bookkeeping
-	inbound  []inboundPkt // packets B→A that were really sent (commitment on B)
-	realSubj *Subject
-	bHalted  bool
+	inbound    []inboundPkt // packets B→A that were really sent (commitment on B)
+	realSubj   *Subject
+	bHalted    bool
 	pathBroken bool
-	inits    []inboundInit
-	outbound []outPkt
-	acks     []ackItem
+	inits      []inboundInit
+	outbound   []outPkt
+	acks       []ackItem
 	// B height -> app hash of B's real header at that height (known to be provable against)
 	realRoots    map[uint64][]byte
 	upgradedReal bool
@@ -148,7 +148,7 @@ type Profile struct {
 	Jump, JumpExpire, JumpPrune                         int
 	Recover, UpgradeVirt, UpgradeReal                   int
 	GateInit, GateV2, GateRecv, GateSend, GateHandshake int
-	HonestReal                                          int
+	HonestReal, RealHostile                             int
 	Virt                                                int // number of virtual subjects
 }
 
@@ -159,15 +159,15 @@ func DefaultProfile() Profile {
 		Jump: 4, JumpExpire: 3, JumpPrune: 5,
 		Recover: 4, UpgradeVirt: 2, UpgradeReal: 0,
 		GateInit: 3, GateV2: 2, GateRecv: 3, GateSend: 2, GateHandshake: 2,
-		HonestReal: 4,
-		Virt:       3,
+		HonestReal: 4, RealHostile: 1,
+		Virt: 3,
 	}
 }
 
 // ---------------------------------------------------------------------------------------------
 // world construction
 
-var trustLevels = []ibctm.Fraction{{Numerator: 1, Denominator: 3}, {Numerator: 1, Denominator: 2}, {Numerator: 2, Denominator: 3}, {Numerator: 2, Denominator: 5}}
+var trustLevels = []ibctm.Fraction{{Numerator: 1, Denominator: 3}, {Numerator: 1, Denominator: 2}, {Numerator: 2, Denominator: 3}, {Numerator: 2, Denominator: 5}, {Numerator: 1, Denominator: 3}, {Numerator: 3, Denominator: 4}}
 
 var revPool = []uint64{1, 2, 3, 47, 0x2f2f, 46, 0x2f00000001}
 
